@@ -241,35 +241,59 @@ class Verifier:
         return res
 
 
-_POOL_STATE = {}
+Z3_CLI = "z3-new"
 
 
-def _discharge_idx(i):
-    o = _POOL_STATE["obls"][i]
-    discharge(o, _POOL_STATE["ver"])
-    return (i, o.status, o.backend, o.seconds, o.model)
+def _cli_check(args):
+    """decide one obligation with the z3 command-line binary in a fresh process (hard timeout enforced
+    by the binary itself; no fork of a process that already runs z3 timer threads)."""
+    i, path, timeout_s = args
+    t0 = time.time()
+    try:
+        p = subprocess.run([Z3_CLI, "-T:%d" % timeout_s, path], capture_output=True, text=True, timeout=timeout_s + 10)
+        out = (p.stdout.strip().split("\n") or ["error"])[0].strip()
+    except Exception as e:
+        out = "error"
+    return i, out, time.time() - t0
 
 
 def discharge_all(obls, verifier, jobs=None):
-    """Obligations are independent SMT queries: discharge them in forked workers (z3 terms live in
-    the parent's memory image; only plain results travel back)."""
-    import multiprocessing as mp
+    """Obligations are independent SMT queries. Each is written as SMT-LIB and decided by a fresh z3
+    process (same z3 version as the API), several at a time; anything that does not come back `unsat`
+    is re-decided in-process to obtain the counter-model / reason (and the cvc5 second opinion)."""
+    from concurrent.futures import ThreadPoolExecutor
+    import shutil
 
     jobs = jobs or int(os.environ.get("PYVC_DISCHARGE_JOBS", "6"))
-    if len(obls) < 6 or jobs <= 1:
+    if len(obls) < 4 or jobs <= 1 or shutil.which(Z3_CLI) is None:
         for o in obls:
             discharge(o, verifier)
         return
-    _POOL_STATE["obls"] = obls
-    _POOL_STATE["ver"] = verifier
-    ctx = mp.get_context("fork")
+    from .engine import OBL_TIMEOUT_MS
+
+    tmpd = tempfile.mkdtemp(prefix="pyvc_obl_")
+    work = []
+    for i, o in enumerate(obls):
+        s = z3.Solver()
+        for p_ in o.pc:
+            s.add(p_)
+        s.add(z3.Not(o.goal))
+        path = os.path.join(tmpd, "%d.smt2" % i)
+        with open(path, "w") as f:
+            f.write(s.to_smt2())
+        work.append((i, path, max(1, OBL_TIMEOUT_MS // 1000)))
     try:
-        with ctx.Pool(min(jobs, len(obls))) as pool:
-            for i, status, backend, seconds, model in pool.imap_unordered(_discharge_idx, range(len(obls)), chunksize=2):
-                o = obls[i]
-                o.status, o.backend, o.seconds, o.model = status, backend, seconds, model
+        with ThreadPoolExecutor(max_workers=min(jobs, len(obls))) as ex:
+            results = list(ex.map(_cli_check, work))
     finally:
-        _POOL_STATE.clear()
+        shutil.rmtree(tmpd, ignore_errors=True)
+    for i, out, secs in results:
+        o = obls[i]
+        if out == "unsat":
+            o.status, o.backend, o.seconds = "discharged", "z3-cli-" + z3.get_version_string(), secs
+        else:
+            discharge(o, verifier)
+            o.seconds += secs
 
 
 def _b(x):
